@@ -947,7 +947,21 @@ theorem good_flushStage1 {cap : Cap} {L R : Bool} (p : Pool) (a re) (hg : Good c
     exact hfr x hx
   · exact (Tame.trans (Tame.trans h1 (tame_gatherStart _ _ _ _ _)) (tame_modApi _ a _)).good hg
 
-theorem good_gacAfter2 {cap : Cap} (p : Pool) (a o) (hg : Good cap true R p) : Good cap true R (p.gacAfter2 a o) := by
+/-- a gather that has completed normally and has every task filed as running or cancelled among its children: none of
+those tasks still holds its slot (all have finished, hence — no task was lost so far — handed it back) -/
+theorem noHeld_of_gather {cap : Cap} {L R : Bool} {p : Pool} (hg : Good cap L R p) (hl : p.lost = false) (g : Nat) (G : Gather)
+    (hG : p.gathers[g]? = some G) (ho : G.outer = some .ok)
+    (hsub : ∀ t ∈ p.running ++ p.cancelledR, Child.task t ∈ G.children) :
+    (p.running ++ p.cancelledR).any p.heldB = false := by
+  rw [List.any_eq_false]
+  intro t ht hc
+  obtain ⟨tk, a1, b1⟩ := hg.fl.gth g G hG ho t (hsub t ht)
+  have hrel : tk.released = true := ((hg.life t tk a1).fin b1 hl).1
+  simp [heldB, a1, hrel] at hc
+
+/-- the closing step; in the strict variant it needs that nothing it drops still holds its slot -/
+theorem good_gacAfter2 {cap : Cap} {L R : Bool} (p : Pool) (a o) (hg : Good cap L R p)
+    (hsafe : L = false → o = .ok → (p.running ++ p.cancelledR).any p.heldB = false) : Good cap L R (p.gacAfter2 a o) := by
   unfold gacAfter2
   split
   · simp only
@@ -955,7 +969,7 @@ theorem good_gacAfter2 {cap : Cap} (p : Pool) (a o) (hg : Good cap true R p) : G
     refine (tame_foldl _ _ (fun p w => tame_schedApi p w) _).good ?_
     exact ⟨⟨hg.slot, hg.phase, hg.reg.gacClear _ rfl rfl rfl rfl rfl, hg.grp.of_eq rfl rfl,
       hg.life.lostMono rfl (fun h => by simp [h]), hg.fl.frame rfl rfl (fun _ h => h), hg.wk.of_eq rfl rfl, hg.rz,
-      fun h => Bool.noConfusion h, fun h => Bool.noConfusion h⟩,
+      fun h => by show (p.lost || _) = false; rw [hg.ll h, hsafe h rfl]; rfl, hg.al⟩,
       hg.map.of_eq rfl rfl, hg.acc.of_eq rfl rfl, hg.canc.of_eq rfl rfl⟩
   · exact (tame_finishApi p a _).good hg
 
@@ -976,8 +990,8 @@ theorem tame_gacGather2 (p : Pool) (a g : Nat) (hk : ApiAt p a (fun x => x.kind.
   · simp only [e, if_false] at hfr' hkind ⊢
     exact hf.api i x g' hx hfr' hkind
 
-theorem good_gacAfter1 {cap : Cap} (p : Pool) (a re g) (hg : Good cap true R p)
-    (hk : ApiAt p a (fun x => x.kind.isGac = true)) : Good cap true R (p.gacAfter1 a re g) := by
+theorem good_gacAfter1 {cap : Cap} {L R : Bool} (p : Pool) (a re g) (hg : Good cap L R p)
+    (hk : ApiAt p a (fun x => x.kind.isGac = true)) : Good cap L R (p.gacAfter1 a re g) := by
   unfold gacAfter1
   simp only
   split
@@ -985,14 +999,33 @@ theorem good_gacAfter1 {cap : Cap} (p : Pool) (a re g) (hg : Good cap true R p)
   · have h1 : Tame p ({ p with metaCancelled := [], reqs := p.reqs.map fun (r : Req) => { r with inCancelled := false, inRunning := false } } : Pool) :=
       tame_of_map _ _ _ rfl rfl rfl (fun x => ⟨rfl, rfl, rfl, Nat.le_refl _, fun h => h, rfl, Or.inl rfl, fun h => h, fun h => h, fun _ => rfl, fun _ => Nat.le_refl _⟩)
     split
-    · exact good_gacAfter2 _ a _ ((Tame.trans h1 (tame_gatherStart _ _ _ _ _)).good hg)
+    · rename_i o ho
+      have ht2 := Tame.trans h1 (tame_gatherStart
+        ({ p with metaCancelled := [], reqs := p.reqs.map fun (r : Req) => { r with inCancelled := false, inRunning := false } } : Pool)
+        (p.ended.map Child.task ++ p.cancelledR.map Child.task ++ p.running.map Child.task) re a 0)
+      have hgq := ht2.good hg
+      refine good_gacAfter2 _ a _ hgq ?_
+      -- the second gather was complete at once: all its children — every task the registries hold — have finished
+      intro hl e
+      subst e
+      obtain ⟨⟨G', hG', hch⟩, _⟩ := gatherStart_facts
+        ({ p with metaCancelled := [], reqs := p.reqs.map fun (r : Req) => { r with inCancelled := false, inRunning := false } } : Pool)
+        (p.ended.map Child.task ++ p.cancelledR.map Child.task ++ p.running.map Child.task) re a 0
+      refine noHeld_of_gather hgq (hgq.ll hl) _ G' hG' ?_ ?_
+      · simp only [gatherOuter, hG'] at ho; exact ho
+      · intro t ht
+        rw [hch]
+        rw [ht2.toTame0.run, ht2.toTame0.can] at ht
+        rcases List.mem_append.mp ht with h | h
+        · exact List.mem_append_right _ (List.mem_map.mpr ⟨t, h, rfl⟩)
+        · exact List.mem_append_left _ (List.mem_append_right _ (List.mem_map.mpr ⟨t, h, rfl⟩))
     · refine (Tame.trans (Tame.trans h1 (tame_gatherStart _ _ _ _ _)) (tame_gacGather2 _ a _ ?_)).good hg
       intro x hx
       rw [(gatherStart_facts _ _ _ _ _).2] at hx
       exact hk x hx
 
-theorem good_gacStage1 {cap : Cap} (p : Pool) (a re) (hg : Good cap true R p)
-    (hk : ApiAt p a (fun x => x.kind.isGac = true)) : Good cap true R (p.gacStage1 a re) := by
+theorem good_gacStage1 {cap : Cap} {L R : Bool} (p : Pool) (a re) (hg : Good cap L R p)
+    (hk : ApiAt p a (fun x => x.kind.isGac = true)) : Good cap L R (p.gacStage1 a re) := by
   unfold gacStage1
   simp only
   split
@@ -1011,7 +1044,14 @@ theorem tame_untilClosedStart (p : Pool) (a) : Tame p (p.untilClosedStart a) := 
   · refine Tame.trans ?_ (tame_modApi _ a _)
     exact tame_of_eq _ _ rfl rfl
 
-theorem good_stepApi {cap : Cap} {L R : Bool} (p : Pool) (a) (hg : Good cap L R p) : Good cap L R (p.stepApi a) := by
+/-- what the closing stage of a `gather_and_close` needs in the strict variant: its second gather has every task that
+is filed as running or cancelled among its children (`SealOK.g2`, `Inv/Seal.lean`) -/
+def GacAwaitsAll (p : Pool) : Prop :=
+  ∀ (a : Nat) (A : Api) (g : Nat), p.apis[a]? = some A → A.kind.isGac = true → A.frame = .gather2 g →
+    ∃ G : Gather, p.gathers[g]? = some G ∧ ∀ t ∈ p.running ++ p.cancelledR, Child.task t ∈ G.children
+
+theorem good_stepApi {cap : Cap} {L R : Bool} (p : Pool) (a) (hg : Good cap L R p)
+    (h5 : L = false → R = true → GacAwaitsAll p) : Good cap L R (p.stepApi a) := by
   unfold stepApi
   split
   · exact hg
@@ -1027,7 +1067,7 @@ theorem good_stepApi {cap : Cap} {L R : Bool} (p : Pool) (a) (hg : Good cap L R 
         rw [hA] at hy; cases hy
         simpa using hP
       -- in the strict variant there is no `gather_and_close` call
-      have hnogac : L = false → A.kind.isGac = false := fun h => hg.al h A (List.mem_of_getElem? hA)
+      have hnogac : L = false → R = false → A.kind.isGac = false := fun h h' => hg.al h h' A (List.mem_of_getElem? hA)
       split
       · exact hg0
       · rename_i re hf hk
@@ -1035,9 +1075,7 @@ theorem good_stepApi {cap : Cap} {L R : Bool} (p : Pool) (a) (hg : Good cap L R 
         · rw [show ({ A with sched := false } : Api).frame = A.frame from rfl, hf] at h; cases h
         · rw [show ({ A with sched := false } : Api).kind = A.kind from rfl, hk]; rfl
       · rename_i re hf hk
-        cases L with
-        | false => have := hnogac rfl; rw [hk] at this; cases this
-        | true => exact good_gacStage1 _ a re hg0 (hat _ (by rw [show ({ A with sched := false } : Api).kind = A.kind from rfl, hk]; rfl))
+        exact good_gacStage1 _ a re hg0 (hat _ (by rw [show ({ A with sched := false } : Api).kind = A.kind from rfl, hk]; rfl))
       · exact (tame_untilClosedStart _ _).good hg0
       · exact (tame_finishApi _ _ _).good hg0
       · rename_i g re hf hk
@@ -1047,12 +1085,9 @@ theorem good_stepApi {cap : Cap} {L R : Bool} (p : Pool) (a) (hg : Good cap L R 
           · rw [show ({ A with sched := false } : Api).kind = A.kind from rfl, hk]; rfl
         · exact hg0
       · rename_i g re hf hk
-        cases L with
-        | false => have := hnogac rfl; rw [hk] at this; cases this
-        | true =>
-          split
-          · exact good_gacAfter1 _ a re g hg0 (hat _ (by rw [show ({ A with sched := false } : Api).kind = A.kind from rfl, hk]; rfl))
-          · exact hg0
+        split
+        · exact good_gacAfter1 _ a re g hg0 (hat _ (by rw [show ({ A with sched := false } : Api).kind = A.kind from rfl, hk]; rfl))
+        · exact hg0
       · rename_i g re hf hk
         split
         · rename_i o ho
@@ -1069,24 +1104,34 @@ theorem good_stepApi {cap : Cap} {L R : Bool} (p : Pool) (a) (hg : Good cap L R 
           exact hg0.fl.gth g G hG hout t (hsub t ht)
         · exact hg0
       · rename_i g re hf hk
-        cases L with
-        | false => have := hnogac rfl; rw [hk] at this; cases this
-        | true =>
-          split
-          · exact good_gacAfter2 _ a _ hg0
-          · exact hg0
+        split
+        · rename_i o ho
+          refine good_gacAfter2 _ a o hg0 ?_
+          intro hl e
+          subst e
+          cases R with
+          | false => have := hnogac hl rfl; rw [hk] at this; cases this
+          | true =>
+            -- the call is suspended in its second gather, which has completed normally and awaits every task filed
+            obtain ⟨G, hG, hsub⟩ := h5 hl rfl a A g hA (by rw [hk]; rfl) hf
+            have hout : G.outer = some .ok := by
+              simp only [gatherOuter, show (p.modApi a fun x => { x with sched := false }).gathers = p.gathers from rfl, hG] at ho
+              exact ho
+            exact noHeld_of_gather hg0 (hg0.ll hl) g G hG hout hsub
+        · exact hg0
       · exact hg0
 
 /-- running any handle preserves `Good` -/
-theorem good_runRef {cap : Cap} {L R : Bool} (p : Pool) (r : Ref) (hg : Good cap L R p) : Good cap L R (p.runRef r) := by
+theorem good_runRef {cap : Cap} {L R : Bool} (p : Pool) (r : Ref) (hg : Good cap L R p)
+    (h5 : L = false → R = true → GacAwaitsAll p) : Good cap L R (p.runRef r) := by
   cases r with
   | task t => exact good_stepTask p t hg
   | spawner m => exact good_stepMeta p m hg
-  | api a => exact good_stepApi p a hg
+  | api a => exact good_stepApi p a hg h5
   | gchild g i => exact (tame_gatherChildDone p g i true).good hg
 
 /-- registering a `flush` / `gather_and_close` / `until_closed` call -/
-theorem good_addApi {cap : Cap} {L R : Bool} (p : Pool) (k : ApiKind) (hg : Good cap L R p) (hk : L = false → k.isGac = false) :
+theorem good_addApi {cap : Cap} {L R : Bool} (p : Pool) (k : ApiKind) (hg : Good cap L R p) (hk : L = false → R = false → k.isGac = false) :
     Good cap L R (p.addApi k) := by
   refine ⟨⟨hg.slot, hg.phase, hg.reg.of_eq rfl rfl rfl rfl rfl, hg.grp.of_eq rfl rfl, hg.life.of_eq rfl rfl, ?_,
     hg.wk.of_eq rfl rfl, hg.rz, hg.ll, ?_⟩, hg.map.of_eq rfl rfl, hg.acc.of_eq rfl rfl, hg.canc.of_eq rfl rfl⟩
@@ -1100,11 +1145,11 @@ theorem good_addApi {cap : Cap} {L R : Bool} (p : Pool) (k : ApiKind) (hg : Good
       · have : a - p.apis.length = 0 := by omega
         rw [this] at ha'; simp at ha'; subst ha'; cases hfr
       · rw [List.getElem?_eq_none (by simpa using h1)] at ha'; cases ha'
-  · intro hl A hA
+  · intro hl hr A hA
     have hA' : A ∈ p.apis ++ [{ kind := k, frame := AFrame.notStarted, sched := true, outcome := none }] := hA
     rcases List.mem_append.mp hA' with h | h
-    · exact hg.al hl A h
-    · simp at h; subst h; exact hk hl
+    · exact hg.al hl hr A h
+    · simp at h; subst h; exact hk hl hr
 
 theorem tame_doGate (p : Pool) (t o) : Tame p (p.doGate t o).1 := by
   unfold doGate
@@ -1151,14 +1196,15 @@ def _root_.Taskpool.Op.isGac : Op → Bool
   | .gac _ => true
   | _ => false
 
-/-- every external operation except `pool_size = …` preserves `Good`; the strict variant excludes `gather_and_close` -/
+/-- every external operation except `pool_size = …` preserves `Good`; the strict variant with `pool_size` assignments
+(`L = false`, `R = false`) excludes `gather_and_close` -/
 theorem good_applyOp {cap : Cap} {L R : Bool} (p : Pool) (op : Op) (hn : op.isSetSize = false)
-    (ha : L = false → op.isGac = false) (hg : Good cap L R p) : Good cap L R (p.applyOp op).1 := by
+    (ha : L = false → R = false → op.isGac = false) (hg : Good cap L R p) : Good cap L R (p.applyOp op).1 := by
   by_cases h : op.isAsync = true
   · cases op with
-    | flush re => exact good_addApi _ _ hg (fun _ => rfl)
-    | gac re => exact good_addApi _ _ hg (fun hl => by have := ha hl; simp [Op.isGac] at this)
-    | untilClosed => exact good_addApi _ _ hg (fun _ => rfl)
+    | flush re => exact good_addApi _ _ hg (fun _ _ => rfl)
+    | gac re => exact good_addApi _ _ hg (fun hl hr => by have := ha hl hr; simp [Op.isGac] at this)
+    | untilClosed => exact good_addApi _ _ hg (fun _ _ => rfl)
     | _ => simp [Op.isAsync] at h
   · exact (tame_applyOp p op hn (by simpa using h)).good hg
 
